@@ -26,7 +26,9 @@ VARIABLES l, ph, f
 tvars == <<l, ph, f, g, phase, res>>
 Model == UNCHANGED <<g, phase, res>>
 
-F0 == [len |-> 0, wf |-> FALSE, badlex |-> FALSE, light |-> FALSE, tcap |-> 0, full |-> FALSE, tn |-> 0, lexerrs |-> 0,
+\* long: the source is longer than 2^31 bytes.  TLC integers are 32-bit: the harness records len clipped to 2^31 - 1
+\* together with lenk = len \div 1024 and lenr = len % 1024.
+F0 == [len |-> 0, long |-> FALSE, lenk |-> 0, wf |-> FALSE, badlex |-> FALSE, light |-> FALSE, tcap |-> 0, full |-> FALSE, tn |-> 0, lexerrs |-> 0,
        ncap |-> 0, declcap |-> 0, nerrcap |-> 0, decls |-> 0, nn |-> 0, nerrs |-> 0, hdr |-> FALSE, oneerr |-> FALSE]
 
 TInit == l = 1 /\ ph = "idle" /\ f = F0 /\ g = G0 /\ phase = "trace" /\ res = NoRes
@@ -36,6 +38,8 @@ Step == l' = l + 1 /\ Model
 
 TInput == /\ Ev("input") /\ ph = "idle"
           /\ f' = [F0 EXCEPT !.len = Rec[l].len, !.wf = Rec[l].wf, !.badlex = Rec[l].badlex,
+                              !.lenk = Rec[l].lenk,
+                              !.long = (Rec[l].lenk > 2097152 \/ (Rec[l].lenk = 2097152 /\ Rec[l].lenr > 0)),
                               \* light: a long run recorded with the buffer events only (no decl / cursor / zone events)
                               !.light = Rec[l].light]
           /\ ph' = "start" /\ Step
@@ -48,7 +52,7 @@ TTokCap == /\ Ev("tokcap") /\ ph \in {"start", "lexed"}
                    /\ f' = [f EXCEPT !.tcap = Rec[l].cap] /\ ph' = "lexing"
               ELSE \* the one-error token list: empty source, oversized source, or exhausted buffer
                    /\ Rec[l].len = 0
-                   /\ (ph = "start" => f.len = 0) /\ (ph = "lexed" => f.full)
+                   /\ (ph = "start" => f.len = 0 \/ f.long) /\ (ph = "lexed" => f.full)
                    /\ f' = [f EXCEPT !.oneerr = TRUE, !.tn = 1] /\ ph' = "lexed"
            /\ Step
 
@@ -132,7 +136,10 @@ TOutcome ==
           /\ (f.full => codes = <<103>>)
           /\ (f.len = 0 => codes = <<101>>)
           /\ (Has(codes, 101) => f.len = 0)
-          /\ ~Has(codes, 102)                                         \* inputs are far below 2 GiB
+          \* E102: "the compiler assumes source files are less than 2GB in size" -- demanded above 2^31 bytes,
+          \* never raised below 2 * 10^9 bytes (= 1953125 KiB), undecided in between
+          /\ (f.long => codes = <<102>>)
+          /\ (Has(codes, 102) => f.lenk >= 1953125)
     /\ ph' = "idle" /\ UNCHANGED f /\ Step
 
 \* the sentinel the harness writes after the last run: only a complete run may precede it
